@@ -23,7 +23,7 @@ from __future__ import annotations
 import ast
 
 from .. import sym
-from ..model import AnalysisError, Program, attr_chain, bind_args, norm_stmt, walk_no_nested
+from ..model import AnalysisError, Program, attr_chain, bind_args, norm_stmt, src_line, walk_no_nested
 from ..paths import Const, Engine, Hooks, Opaque, Seq, State, describe_trail, vkey
 from ..report import Result
 from ..selftest import Variant
@@ -84,7 +84,7 @@ def _search_state(prog: Program, res: Result):
         # only derivations from attributes that some method really replaces matter; 'self.ghe' is rebuilt per evaluation by initialize_ghe
         bad = [b for b in bad if b[4] != "self.ghe"]
         res.ob("R05.6", f"{cinfo.name}: nothing the constructor computes from a stored parameter goes stale when a method replaces that parameter's attribute "
-                        f"({len(defs)} derived attribute(s), {len(swapped & set(alias.values()))} replaceable source(s))", not bad, f"{cinfo.module.replace('.', '/')}.py:{cinfo.node.lineno}")
+                        f"({len(defs)} derived attribute(s), {len(swapped & set(alias.values()))} replaceable source(s))", not bad, f"{cinfo.module.replace('.', '/')}.py:{src_line(cinfo.node)}")
         for c, m, st_, y, x, how, dstmt in bad[:4]:
             res.violation("R05.6", f"stale|{c.name}.{m.name}|{y}|{x}", prog.loc(m, st_), m.qualname,
                           f"{c.name}.{m.name}() replaces {y}, but {x} - which the constructor computed from it ({norm_stmt(dstmt)[:100]}) - {how}: "
